@@ -10,6 +10,7 @@ SW = [M, M + "/ptrify", M + "/common", M + "/transform", M + "/parse", "strings"
 ENVP = [M, M + "/ptrify", M + "/common", M + "/transform", M + "/parse", M + "/tagformat", M + "/tagformat/caseconversion", M + "/helper",
         "github.com/fatih/structtag", "strings", "unicode/utf8", "strconv", "go/token", "text/scanner", "bytes", "io"]
 FLAGP = ENVP + [M + "/sources/flag/flaghelper", "flag", "sort"]
+PFLAGP = ENVP + [M + "/sources/flag/flaghelper", "github.com/spf13/pflag", "sort", "encoding/csv", "bufio", "internal/stringslite", "math/bits"]
 HELP = [M + "/parse", "strings", "unicode/utf8", "strconv", "go/token", "text/scanner", "bytes", "io", "sort"]
 EZP = ENVP + [M + "/sourcewrap", M + "/sources/env", M + "/sources/flag", M + "/sources/flag/flaghelper", "flag", "sort"]
 TFP = [M + "/ptrify", M + "/common", M + "/parse", M + "/tagformat/caseconversion", M + "/helper", "github.com/fatih/structtag", "sort",
@@ -93,7 +94,7 @@ CHECKS = {
         },
         "runs": [seq("HarnessC03A2", ["c03-end"]), seq("HarnessC03B2", ["c03-end"]), seq("HarnessC03C2", ["c03-end"]),
                  seq("HarnessC03D2", ["c03-end"], native_timeout=120), seq("HarnessC03ConfigRecursive", [], native_timeout=120),
-                 seq("HarnessC03E", ["c03-end"]), seq("HarnessC03F2", ["c03-end"]), seq("HarnessC03G2", ["c03-end"], ["quick"]), seq("HarnessC03G2Full", ["c03-end"], ["thorough"]), seq("HarnessC03H2", ["c03h-end"]),
+                 seq("HarnessC03E", ["c03-end"]), seq("HarnessC03F2", ["c03-end"]), seq("HarnessC03G2", ["c03-end"], ["quick"]), seq("HarnessC03G2Full", ["c03-end"], ["thorough"]), seq("HarnessC03H2", ["c03h-end"]), seq("HarnessC03I2", ["c03-end"]), conc("HarnessC03SourceSharing", ["c03s-end"]),
                  seq("HarnessC03A3", ["c03-end"], ["thorough"])],
         "bounds": {"quick": "families A (pointer fields), B (maps), C (slices/arrays), D (interfaces), E (maps of maps), F (refs after unexported fields), G (arrays of arrays, slices of arrays, maps of arrays; reduced edge set in quick), H (through Config: Kids []*T, Named map[string]*T, Pair [1]*T with root back-edges); N<=2 nodes; call depth bound 400 (unwinding assertion)",
                    "thorough": "plus family A with 3 nodes and the full edge set of family G"},
@@ -133,7 +134,7 @@ CHECKS = {
             "design_ref": "DESIGN.md §4 C06",
         },
         "runs": [conc("HarnessC06Quick", ["c06-end"]), conc("HarnessC06Unregister", ["c06-end"]), conc("HarnessC06NoGlobal", ["c06-end"]),
-                 conc("HarnessC06UnregisterShutdown", ["c06-shutdown-end"]), conc("HarnessC06Thorough", ["c06-end"], ["thorough"])],
+                 conc("HarnessC06UnregisterShutdown", ["c06-shutdown-end"]), conc("HarnessC06DrainOnCancel", ["c06-drain-end"]), conc("HarnessC06Thorough", ["c06-end"], ["thorough"])],
         "bounds": {"quick": "2 installs, 1 registrar (3 serial modes), optional unregister; with and without global callbacks; unregister racing with a slow callback and the watcher's Done; all schedules", "thorough": "3 installs, slow callbacks"},
         "outside": "drop-on-overflow (queue of 64 never fills); several registrars",
         "assumptions": CONC_ASSUME,
@@ -146,7 +147,7 @@ CHECKS = {
         },
         "runs": [conc("HarnessC07Quick", ["c07-end"]), conc("HarnessC07Second", ["c07-end"]),
                  {"entry": M + "/sourcewrap.HarnessC04Wrapped", "pkgs": SW, "must_reach": ["c04-wrapped-end"], "instrument": [M, M + "/sourcewrap"], "validate": 0},
-                 {"entry": M + "/sourcewrap.HarnessC20BlankContexts", "pkgs": SW, "must_reach": ["c20-blank-ctx-end", "c20-blank-late-end"], "instrument": [M, M + "/sourcewrap"], "validate": 0}],
+                 {"entry": M + "/sourcewrap.HarnessC20BlankContexts", "pkgs": SW, "must_reach": ["c20-blank-ctx-end", "c20-blank-late-end", "c20-blank-eager-end"], "instrument": [M, M + "/sourcewrap"], "validate": 0}],
         "bounds": {"quick": "1 blocking report + canceller goroutine (+1 plain report); 2 blocking reports of arbitrary validity through a transforming source; Blank.SetSource with its own context, also after Done; all schedules", "thorough": "same"},
         "outside": "several concurrent blocking reporters",
         "assumptions": CONC_ASSUME,
@@ -171,9 +172,9 @@ CHECKS = {
             "note": "sequential harness (events are issued from one goroutine, callbacks observed at quiescence); racing EnableVerification with an in-flight update is covered by the schedules of the monitor/reporter rendezvous",
             "design_ref": "DESIGN.md §4 C09",
         },
-        "runs": [conc("HarnessC09Quick", ["c09-end"]), conc("HarnessC09NoWatcher", ["c09-end"]), conc("HarnessC09Race", ["c09-race-end"]),
+        "runs": [conc("HarnessC09Quick", ["c09-end"]), conc("HarnessC09NoWatcher", ["c09-end"]), conc("HarnessC09Race", ["c09-race-end"]), conc("HarnessC09EnableCancel", ["c09-enable-cancel-end"]),
                  conc("HarnessC09Thorough", ["c09-end"], ["thorough"])],
-        "bounds": {"quick": "3 events; 4 option combinations; initial validity symbolic; Verify fails for an external reason during EnableVerification calls that are documented not to verify", "thorough": "4 events"},
+        "bounds": {"quick": "3 events; 4 Delay x suppress combinations plus SkipInitialVerification with/without suppress; initial validity symbolic; an EnableVerification call abandoned at an arbitrary moment, then retried; Verify fails for an external reason during EnableVerification calls that are documented not to verify", "thorough": "4 events"},
         "outside": "longer event sequences",
         "assumptions": CONC_ASSUME,
     },
@@ -201,6 +202,8 @@ CHECKS = {
             {"entry": M + "/sources/flag.HarnessC12Nested", "pkgs": FLAGP, "must_reach": ["c12-nested-end", "c12-nested-error"]},
             {"entry": M + "/sources/flag.HarnessC12Gen2", "pkgs": FLAGP, "must_reach": ["c12-gen-end", "c12-gen-error"]},
             {"entry": M + "/sources/flag.HarnessC12Gen3", "pkgs": FLAGP, "must_reach": ["c12-gen-end", "c12-gen-error"], "tiers": ["thorough"]},
+            {"entry": M + "/sources/pflag.HarnessC12PflagGen2", "pkgs": PFLAGP, "must_reach": ["c12-pgen-end", "c12-pgen-error"]},
+            {"entry": M + "/sources/pflag.HarnessC12PflagScalars", "pkgs": PFLAGP, "must_reach": ["c12-pflag-end", "c12-pflag-error"]},
             {"entry": M + "/sources/flag.HarnessC12All", "pkgs": FLAGP, "must_reach": ["c12-end", "c12-error"], "tiers": ["thorough"]},
         ],
     },
@@ -252,8 +255,10 @@ CHECKS = {
             {"entry": PARSE + ".HarnessC15IntSliceTwo", "pkgs": LIBS, "must_reach": ["c15-two-end"]},
             {"entry": PARSE + ".HarnessC15ParseStringInts", "pkgs": LIBS, "must_reach": ["c15-parsestring-end"]},
             {"entry": PARSE + ".HarnessC15FloatBoundaries", "pkgs": LIBS, "must_reach": ["c15-float-end"]},
+            {"entry": PARSE + ".HarnessC15FloatValues", "pkgs": LIBS, "must_reach": ["c15-floatvalues-end"]},
             {"entry": M + "/sources/flag/flaghelper.HarnessC15HelperInts", "pkgs": HELP, "must_reach": ["c15-helper-ints-end"]},
             {"entry": M + "/sources/flag/flaghelper.HarnessC15HelperStrings1", "pkgs": HELP, "must_reach": ["c15-helper-strings-end"], "loopcap": 400},
+            {"entry": M + "/sources/flag/flaghelper.HarnessC15HelperEmpty", "pkgs": HELP, "must_reach": ["c15-helper-empty-end"], "loopcap": 400},
             {"entry": M + "/sources/flag/flaghelper.HarnessC15HelperStrings2", "pkgs": HELP, "must_reach": ["c15-helper-strings-end"], "loopcap": 400, "tiers": ["thorough"]},
         ],
         "bounds": {"quick": "11 integral-slice instantiations and 12 parse.String integer types x 5 literal styles x paddings; value = any int64/uint64; 1-2 elements",
@@ -317,7 +322,7 @@ CHECKS = {
             {"entry": M + "/sourcewrap.HarnessC20TransformWatch", "pkgs": SW, "must_reach": ["c20-watch-end"], "instrument": [M, M + "/sourcewrap"], "validate": 0},
             {"entry": M + "/sourcewrap.HarnessC20Decoder", "pkgs": SW, "must_reach": ["c20-decoder-end"]},
             {"entry": M + "/sourcewrap.HarnessC20Blank", "pkgs": SW, "must_reach": ["c20-blank-end", "c20-blank-done"], "instrument": [M, M + "/sourcewrap"], "validate": 0},
-            {"entry": M + "/sourcewrap.HarnessC20BlankContexts", "pkgs": SW, "must_reach": ["c20-blank-ctx-end", "c20-blank-late-end"], "instrument": [M, M + "/sourcewrap"], "validate": 0},
+            {"entry": M + "/sourcewrap.HarnessC20BlankContexts", "pkgs": SW, "must_reach": ["c20-blank-ctx-end", "c20-blank-late-end", "c20-blank-eager-end"], "instrument": [M, M + "/sourcewrap"], "validate": 0},
             {"entry": M + "/sourcewrap.HarnessC20Slices", "pkgs": SW + ["github.com/fatih/structtag"], "must_reach": ["c20-slices-end"], "instrument": [M, M + "/sourcewrap"], "validate": 0},
         ],
         "bounds": {"quick": "1 wrapped source (value- or pointer-returning), 3 updates, all int64 values; a decoder shared by 2 config types; Blank: 3 operations, SetSource contexts, SetSource after Done; slices of structs unset/empty/1 element initially and on update through a recursing mangler", "thorough": "same"},
